@@ -41,6 +41,7 @@ func init() {
 			{ID: "C11.18", Desc: "after a 304 the Age counts from the validation exchange (the write-back carries its times)", Run: func(c *Ctx) { ruleC08_2(c); renameRule(c, "C08.2", "C11.18") }, MinSites: 1},
 			{ID: "C11.19", Desc: "the entry's request time is read from the clock in front of the origin call and its response time behind it, on every path into the entry", Run: func(c *Ctx) { ruleTimeRoles(c, "C11.19") }, MinSites: 2},
 			{ID: "C11.20", Desc: "the difference added to the Age field's value is the response delay: both operands are the entry's own times", Run: func(c *Ctx) { ruleResponseDelayFromEntryTimes(c, "C11.20") }, MinSites: 1},
+			{ID: "C11.21", Desc: "every field of the entry's meta line is read from the column it is written to (request and response time survive the store in their roles)", Run: func(c *Ctx) { ruleMetaLineColumns(c, "C11.21") }, MinSites: 1},
 		},
 	})
 }
